@@ -4,6 +4,7 @@
     seq <chunksz> <tmpsz | tmpsz/q0size/q1size> <ndirs> <wsched> <msched> <files> <op> <op> ...
 -/
 import LtVerif.Model.Cq
+import LtVerif.Model.CqSplice
 namespace Driver
 open LtVerif LtVerif.Cq
 
@@ -114,9 +115,23 @@ def resStr (name : String) : Res → String
   | .read (some d) => s!"rd:0,{crcHex d}"
   | .read none => "rd:-1"
 
+/-- `sp,q,seed,len` (chunkqueue_append_splice_pipe_tempfile): not an `Op`, see Model/CqSplice.lean -/
+def parseSp (tok : String) : Option (Bool × Nat × Nat) :=
+  match tok.splitOn "," with
+  | ["sp", qs, seed, len] =>
+    match qs.toNat?, seed.toNat?, len.toNat? with
+    | some qn, some seed, some len => if len ≤ 60000 then some (qn % 2 = 1, seed, len) else none
+    | _, _, _ => none
+  | _ => none
+
 def doOp (st : St) (tok : String) : St × String :=
   match parseOp st.nsrc tok with
-  | none => (st, "bad-op")
+  | none =>
+    match parseSp tok with
+    | some (qi, seed, len) =>
+      let (s', r) := spliceStep st.s qi (pat seed len)
+      ({ st with s := s' }, match r with | .rc true => s!"sp:{len}" | _ => "sp:-1")
+    | none => (st, "bad-op")
   | some op =>
     let (s', r) := step st.s op
     ({ st with s := s' }, resStr ((tok.splitOn ",").headD "") r)
